@@ -1121,7 +1121,7 @@ PROPS["C14"] = dict(
 import c13  # noqa: E402
 PROPS["C13"] = dict(
     runner=c13.runner, aspects=["verdict"], n=(200, 3000), corpus=["common", "C13"],
-    profile=dict(p_pub=1.0, p_backend=0.2, p_markers=0.4, modules=(1, 3), p_nested_mod=0.4, p_vftable=0.4, p_base=0.4, p_impl=0.5),
+    profile=dict(p_pub=1.0, p_backend=0.2, p_markers=0.4, modules=(1, 3), p_nested_mod=0.4, p_vftable=0.4, p_base=0.4, p_impl=0.5, p_vfunc_no_self=0.01),
     rule="gen.py with every item public (the property's fragment: public types for cross-module use), power-of-two alignments, arrays of <= 5 elements, 1..3 modules incl. nested ones, "
          "at pointer width 8; every accepted crate among the first 48 (quick) / 1500 (thorough) is assembled (module tree, extern types supplied, ABI strings normalised to \"C\") and "
          "type-checked by rustc; non-trivial = distinct accepted crate that went through rustc",
